@@ -47,7 +47,15 @@ From LQ Require Export Base.Str.
 
 (** * Syntax *)
 
-Inductive wrap := WIf | WFor.
+(** Container tags whose body is an ast.BlockNode.  [WIf] {% if true %},
+    [WUnless] {% unless false %}, [WCase] {% case 1 %}{% when 1 %}, [WLiq] the
+    lines of a {% liquid %} tag, [WCap] {% capture c %}..{% endcapture %}{{ c }}
+    render their body in the same scope; [WFor] {% for i in (1..1) %} and
+    [WWith] {% with x: 1 %} push one scope (context.loop / context.extend). *)
+Inductive wrap := WIf | WFor | WUnless | WCase | WWith | WCap | WLiq.
+
+Definition wrap_scoped (k : wrap) : bool :=
+  match k with WFor | WWith => true | _ => false end.
 
 Inductive item :=
 | Text (s : str)
@@ -77,8 +85,11 @@ Definition notfound {A} : res A := LErr TemplateNotFoundError None.
     Node.blank defaults to True (ast.py:38: assign, comment, ...);
     ContentNode.blank = [not text or text.isspace()] (content.py:41);
     OutputNode, ExtendsNode and the block tag's BlockNode set it to False
-    (output.py:31, extends_tag.py:51,171); IfNode / ForNode inherit it from
-    their block (if_tag.py:45, for_tag.py:47); ast.BlockNode (the body of
+    (output.py:31, extends_tag.py:51,171); IfNode / ForNode / UnlessNode /
+    CaseNode / WithNode / LiquidNode inherit it from their block (if_tag.py:45,
+    for_tag.py:47, unless_tag.py:45, case_tag.py:53, with_tag.py:40,
+    liquid_tag.py:32); CaptureNode keeps the default True, but the model's
+    [Wrap WCap] stands for the capture followed by the output of its variable; ast.BlockNode (the body of
     every block tag, if and for) is blank iff all its nodes are (ast.py:146). *)
 
 (** [str.isspace] on one code point (the code points below 256; the
@@ -90,6 +101,7 @@ Fixpoint blank_item (it : item) : bool :=
   match it with
   | Text s => forallb is_ws s
   | Quiet => true
+  | Wrap WCap _ => false            (* the capture tag is blank, the {{ c }} after it is not *)
   | Wrap _ b => forallb blank_item b
   | Blk _ _ _ _ => false
   | Super => false
@@ -274,10 +286,8 @@ Section Base.
                             | p :: ps => tblock suppress (b_body p) (ext (Own ps) (b_body p))
                             end)) (b_body top))
         end
-    | Wrap WIf body =>                                (* IfNode: same context *)
-        tblock suppress body (cat_map go body)
-    | Wrap WFor body =>                               (* ForNode: context.loop = extend *)
-        tblock suppress body (ext dr body)
+    | Wrap k body =>            (* same context, or one more scope (for: context.loop; with: extend) *)
+        tblock suppress body (if wrap_scoped k then ext dr body else cat_map go body)
     end.
 
   Fixpoint R (df : nat) : nat -> drop -> list item -> res str :=
@@ -333,8 +343,13 @@ Section Leaf.
     | Quiet => Ok ([], false)
     | Blk n req body _ => if req then reqerr else tblock_pre suppress body (down body)
     | Ext _ => here
-    | Wrap WIf body => tblock_pre suppress body (pre_items go body)
-    | Wrap WFor body => tblock_pre suppress body (down body)
+    | Wrap k body =>
+        let r := tblock_pre suppress body (if wrap_scoped k then down body else pre_items go body) in
+        match k with
+        | WCap =>               (* StopRender inside a capture: what was captured is never printed *)
+            do p <- r;; if snd p then Ok ([], true) else Ok p
+        | _ => r
+        end
     end.
 
   Fixpoint pre (sf : nat) (its : list item) {struct sf} : res (str * bool) :=
